@@ -33,6 +33,8 @@ ASSUMPTIONS = [
     "under an injected stream fault a call may raise or add a prefix of the document; for EOF faults the no-garbage clause is judged for line-based syntaxes only (a truncated Turtle/XML/JSON document can be a different legal prefix)",
 ]
 PROBES = [
+    "option-bnode_context-fresh-dict",
+    "option-preserve_bnode_ids-false",
     "same-label-consecutive-docs",
     "same-doc-twice",
     "label-equals-existing-bnode-id",
@@ -433,7 +435,15 @@ def _execute(trace, ctx):
             kwargs, stream = _deliver(call, doc, ctx.faults)
             try:
                 with ctx.budget(PARSE_BUDGET if call.get("fault") or call["mode"] in ("raw", "text") and call["chunks"][0] < 4 else None, "parse"):
-                    sink.parse(format=fmt, **kwargs)
+                    # documented options spelled out with the value they have by default: nothing changes
+                    opts = {}
+                    if fmt in ("nt", "nquads") and call["uid"] % 3 == 0:
+                        opts["bnode_context"] = {}  # a label map of the caller's, fresh for this call
+                        ctx.probe("option-bnode_context-fresh-dict")
+                    elif fmt in ("xml", "trix") and call["uid"] % 3 == 1:
+                        opts["preserve_bnode_ids"] = False
+                        ctx.probe("option-preserve_bnode_ids-false")
+                    sink.parse(format=fmt, **kwargs, **opts)
             except Exception as e:
                 err = e
             fired = stream is not None and stream.fired
